@@ -130,8 +130,8 @@ def snapshot():
         "regex_ids": [(i, rx.pattern) for i, rx in R._regex.items()],
         "global_regex_is_table": m.global_regex is R._regex,
     }
-    sc = m._DEFAULT_SCORER
-    mdl = getattr(sc, "_model", None)
+    sc = core.default_scorer()
+    mdl = core.scorer_model(sc)
     if mdl is not None:
         snap["vocab"] = sorted(mdl.transformer.vocabulary.items())
         snap["prior"] = list(mdl.estimator.class_prior)
@@ -179,7 +179,7 @@ class Boom(Exception):
 def raising_scorer(after):
     m = core.load_repo()
     from ctparse.scorer import Scorer
-    inner = m._DEFAULT_SCORER
+    inner = core.default_scorer()
 
     class R(Scorer):
         def __init__(self):
@@ -474,7 +474,7 @@ def run(ctx):
     pool = build_pool(ctx.seed, 150 if ctx.thorough else 48)
     acc = core.Acc(ctx.pid)
     snap0 = snapshot()
-    default_pickle = pickle.dumps(getattr(m._DEFAULT_SCORER, "_model", None))
+    default_pickle = pickle.dumps(core.scorer_model(core.default_scorer()))
     base = fresh_baseline(pool, 0)
     # in-process first observation == fresh-process observation
     for idx, e in enumerate(pool):
@@ -517,7 +517,7 @@ def run(ctx):
     acc.case(("snap-main", 0), nontrivial=True, cls="snapshot-before-after-history", sample={"snapshot_keys": sorted(snap0)})
     if d:
         acc.fail("module-state-modified:" + ",".join(d), {"kind": "snapshot", "history": "main process"}, str(d))
-    if pickle.dumps(getattr(m._DEFAULT_SCORER, "_model", None)) != default_pickle:
+    if pickle.dumps(core.scorer_model(core.default_scorer())) != default_pickle:
         acc.fail("scorer-model-modified", {"kind": "snapshot", "history": "main process"}, "pickle of the default model changed")
     return core.finish(ctx, acc, RULE, assumptions=[
         "timeout=0 everywhere; a seeded RandomScorer is part of the arguments (fresh object with the same seed per call)",
